@@ -537,6 +537,34 @@ impl<'a> Sim<'a> {
                     ));
                 }
                 self.timed_ticks += 1;
+                // the same curve over the time that has elapsed in the phase (independent of the envelope's own phase
+                // counter): after k ticks at N = T*fs ticks per phase the abscissa lies in [l_sum, u_sum] (the bounds C02
+                // uses for the phase end), +- one tick for the hand-over between phases
+                if st_after == self.m_state {
+                    let a = 1.0 / self.n_of(st_after);
+                    let lo = (self.l_sum - a - 1e-6).clamp(0.0, 1.0);
+                    let hi = (self.u_sum + a + 1e-6).clamp(0.0, 1.0);
+                    let (von, voff, sus) = (self.v_on as f64, self.v_off as f64, s_now as f64);
+                    let f = |x: f64| match st_after {
+                        State::Attack => von + (1.0 - von) * attack_curve(x),
+                        State::Decay => sus + (1.0 - sus) * decay_curve(x),
+                        _ => voff * decay_curve(x),
+                    };
+                    let (r1, r2) = (f(lo), f(hi));
+                    let (rmin, rmax) = (r1.min(r2), r1.max(r2));
+                    let vv = v as f64;
+                    let e2 = if vv < rmin { rmin - vv } else if vv > rmax { vv - rmax } else { 0.0 };
+                    self.stats.ratio("curve_error_over_elapsed_time/0.005", e2 / 0.005);
+                    if !(e2 <= 0.005) {
+                        return Err(self.fail(
+                            "C01.curve_over_time",
+                            format!(
+                                "{} after {} ticks of the phase ({:.7}..{:.7} of its duration at N = {:.3} ticks): value {} vs documented curve {:.7}..{:.7} (off by {:.5} > 0.005; the envelope's own phase counter says {:.7})",
+                                what, self.k, lo, hi, self.n_of(st_after), v, rmin, rmax, e2, phi
+                            ),
+                        ));
+                    }
+                }
             }
         }
 
